@@ -71,18 +71,21 @@ func main() {
 	debug.SetGCPercent(400) // allocation-heavy enumeration (tink allocates k polynomials per decode)
 	h.Main("C10", "exploration",
 		"Scalar functions: every a in Z_q (reduceOnce on [0,2q)) x the listed second operands, compared with FIPS 204 `%` formulas; mul: every a in Z_q x every zeta (x negations in thorough), inv256 and boundary constants. NTT/intt: 768 scaled unit vectors + dense inputs vs direct evaluation at the roots; packing: every packed word at every byte-alignment class for all 8 (range, width) uses; hint codec: enumerated hint vectors and enumerated well-/mal-formed encodings vs Algorithm 21. Scheme: (parameter set x seed x context length x message length) deterministic signatures byte-compared with the Go stdlib and the own FIPS 204 model; hedged with chosen rnd and with rnd served from an entropy tape; every listed bit flip / malformed encoding / crafted boundary signature must get the same verdict from tink, the stdlib and the model. Non-trivial = an execution that compared at least one tink output with an oracle; distinct = distinct choice vectors.",
+		// Seam: the section drives unexported functions through the export shim (overlay group c10); when tink's
+		// internals were refactored so that the shim no longer builds, these are skipped and the scheme / API
+		// sections below (exported names only: mldsa.MLDSA44/65/87, PublicKey, SecretKey, the tink key layer) run.
 		[]h.Section{
-			{Name: "scalar-reduce-add-sub", Body: sectionReduceAddSub, Bound: -1},
-			{Name: "scalar-mul", Body: sectionMul, Bound: -1},
-			{Name: "scalar-mul-windows", Body: sectionMulWindows, Bound: -1},
-			{Name: "scalar-rounding-hints", Body: sectionRounding, Bound: -1},
-			{Name: "coeff-from-half-byte", Body: sectionHalfByte, Bound: -1},
-			{Name: "ntt-table", Body: sectionNTTTable, Bound: -1},
-			{Name: "ntt", Body: sectionNTT, Bound: -1},
-			{Name: "bit-packing", Body: sectionPacking, Bound: -1},
-			{Name: "hint-pack", Body: sectionHintPack, Bound: -1},
-			{Name: "hint-decode", Body: sectionHintDecode, Bound: -1},
-			{Name: "sampling", Body: guard(sectionSampling), Bound: -1},
+			{Name: "scalar-reduce-add-sub", Body: sectionReduceAddSub, Bound: -1, Seam: true},
+			{Name: "scalar-mul", Body: sectionMul, Bound: -1, Seam: true},
+			{Name: "scalar-mul-windows", Body: sectionMulWindows, Bound: -1, Seam: true},
+			{Name: "scalar-rounding-hints", Body: sectionRounding, Bound: -1, Seam: true},
+			{Name: "coeff-from-half-byte", Body: sectionHalfByte, Bound: -1, Seam: true},
+			{Name: "ntt-table", Body: sectionNTTTable, Bound: -1, Seam: true},
+			{Name: "ntt", Body: sectionNTT, Bound: -1, Seam: true},
+			{Name: "bit-packing", Body: sectionPacking, Bound: -1, Seam: true},
+			{Name: "hint-pack", Body: sectionHintPack, Bound: -1, Seam: true},
+			{Name: "hint-decode", Body: sectionHintDecode, Bound: -1, Seam: true},
+			{Name: "sampling", Body: guard(sectionSampling), Bound: -1, Seam: true},
 			{Name: "keygen", Body: guard(sectionKeygen), Bound: -1},
 			{Name: "sign-deterministic", Body: guard(sectionSignDet), Bound: -1},
 			{Name: "context-too-long", Body: guard(sectionCtxTooLong), Bound: -1},
